@@ -133,10 +133,18 @@ def reuse_replay(ctx, drv, prop):
                 ctx.violation("Inv_C20_NoReadAfterRelease:replay:" + e.get("where", ""),
                               "a released (poisoned) buffer was read: %s" % e.get("where"), artefact={"event": e, "paths_file": f})
             continue
+        if e["ev"] == "rp.changed":
+            if prop in ("C20", "C16", "C06"):
+                ctx.violation("Inv_C20_NoWriteAfterHandout:replay:" + e.get("where", ""),
+                              "a reply was changed (released and reset) while its caller still owned it: %s" % json.dumps(e)[:300],
+                              artefact={"event": e, "paths_file": f})
+            continue
         if e["ev"] not in ("rp.diverge", "rp.stuck"):
             continue
         fields = ",".join(sorted({x.split(":")[0].split("[")[0] for x in e.get("diff", [])})) or "stuck"
         cls = "C18" if e.get("closed") else "C06"
+        if prop == "C16" and "res" in fields:
+            cls = "C16"     # what the caller of the TCP leg got is not the outcome of its exchange
         if e["ev"] == "rp.stuck":
             cls = "C14"
         if cls != prop and not (prop == "C20" and False):
